@@ -172,7 +172,15 @@ class ColumnBackend(ArraySchemaBackend):
                         # errors that cannot be repaired by dropping rows
                         # were collected, they are raised below
                         continue
-                    check_obj = dropped_check_obj
+                    if is_field(dropped_check_obj):
+                        # the column's parsers ran: only the parsed column
+                        # came back, keep the other columns of its rows
+                        check_obj = check_obj.loc[
+                            check_obj.index.isin(dropped_check_obj.index)
+                        ].copy()
+                        check_obj[column_name] = dropped_check_obj.array
+                    else:
+                        check_obj = dropped_check_obj
 
                 validated_column = validate_column(
                     check_obj,
